@@ -113,6 +113,11 @@ def make_code(cfg: str):
     if name:
         kw = {'deformation_axis': axis} if axis else {}
         code.deform(name, **kw)
+    try:
+        from symx.core import isolate_classes_of
+        isolate_classes_of(code)      # class-/module-level containers are reset between symbolic paths
+    except Exception:                 # noqa: replays run without the engine
+        pass
     return code
 
 
